@@ -120,7 +120,7 @@ def build_object(ws, cls_name, parent=None, rng=None, name=None, n=None, base=0,
         kw["vertices"] = tagged_vertices(n, base, rng)
         kw["cells"] = surface_cells(n, rng)
     elif cls_name == "Grid2D":
-        kw.update(u_count=rng.randint(1, 4), v_count=rng.randint(1, 4), u_cell_size=rng.choice([1.0, 2.5]), v_cell_size=rng.choice([1.0, 0.5]), origin=[float(base), 1.0, -2.0], rotation=rng.choice([0.0, 30.0, 90.0]), dip=rng.choice([0.0, 45.0]))
+        kw.update(u_count=rng.randint(1, 5), v_count=rng.randint(2, 5), u_cell_size=rng.choice([1.0, 2.5]), v_cell_size=rng.choice([1.0, 0.5]), origin=[float(base), 1.0, -2.0], rotation=rng.choice([0.0, 30.0, 90.0, 30.0]), dip=rng.choice([0.0, 45.0]))
     elif cls_name == "BlockModel":
         kw.update(
             u_cell_delimiters=np.arange(rng.randint(2, 4), dtype=float),
